@@ -133,12 +133,13 @@ def run(ctx: Ctx) -> None:
     ctx.cov["parentType_seen_by_silent_calls"] = {f"{a}:{b}": n_ for (a, b), n_ in sorted(mon.silent_parent.items())}
     ctx.cov["rules_testing_parentType"] = list(mon.readers)
     ctx.partial += [
-        "PROVED for the modelled sub-parser with block quotes (Props/C07b.lean suffix_shift, concat_law): once the top-level loop "
+        "PROVED for the modelled sub-parser (Props/C07b.lean suffix_shift, concat_law for the chains with block quotes; Props/C07c.lean "
+        "l_suffix_shift, l_concat_law for the full chains code, fence, blockquote, hr, list, heading, paragraph): once the top-level loop "
         "stands at the first line of B — n lines into the table, whatever those lines contain and whatever tokens, tight, parentType "
         "and hasEmptyLines the earlier blocks left — it appends exactly the stream of B parsed alone with every map shifted by n "
         "(simulation with a line shift over every rule, the terminator chains, the loop and the nested runs; tab-free B). "
         "NOT PROVED: the prefix half (appending blank + B does not change how A parses, i.e. that the loop does come to stand at "
-        "B's first line: it needs a look-ahead-locality lemma per rule), lists and the rules outside the sub-parser: decided by the oracle "
+        "B's first line: it needs a look-ahead-locality lemma per rule) and the rules outside the sub-parser: decided by the oracle "
         "(parentType: every terminator-running rule pins it — theorem pins_cover over the regenerated table — and the monitor "
         "checks on each real silent call that the value seen is the caller's pin, K6); the frame and staging theorems are proved at engine level under the monitored contracts",
     ]
